@@ -202,6 +202,12 @@ def field_narrowings(ctx: Ctx, c: ClassInfo, f: FieldInfo) -> List[Tuple[str, Tu
         nodes = vkw.elts if isinstance(vkw, (ast.List, ast.Tuple)) else [vkw]
         for nd in nodes:
             # the validator object applied to (instance, attribute, value): what it does with the value
+            if isinstance(nd, ast.Name):
+                # a class-level name bound to a validator built in the class body
+                for k_ in f.cls.mro():
+                    if nd.id in k_.class_assigns:
+                        nd = k_.class_assigns[nd.id]
+                        break
             vt = ctx.ev.expr(nd, _State(), f.cls.module, None, 0)
             if isinstance(vt, GlobalVal):
                 vt = vt.value
